@@ -162,7 +162,7 @@ pub fn big_placement<F>(m: &MiniAllocator<F>, slot: usize) {
         assert!(n == (e.stream_len + 63) / 64, "C03: mini chain length does not match the stream size");
     } else {
         while cur != EOC && n <= 20 {
-            assert!((cur as usize) < fat.len() && cur >= 4 && fat[cur as usize] <= EOC && fat[cur as usize] != FATSECT && fat[cur as usize] != FREE, "C03: a stream of 4096 bytes or more is not in a valid regular chain (placement by the cutoff)");
+            assert!((cur as usize) < fat.len() && cur >= 3 && fat[cur as usize] <= EOC && fat[cur as usize] != FATSECT && fat[cur as usize] != FREE, "C03: a stream of 4096 bytes or more is not in a valid regular chain (placement by the cutoff)");
             cur = fat[cur as usize];
             n += 1;
         }
